@@ -1,17 +1,20 @@
 """C09 - insolvency safety (DESIGN §7 C09)."""
-from shell import replayers
+from shell import replayers, c09
 
 ID = "C09"
 LEVEL = "proof"
 FUNCTIONS = ["Broker.net_liquidation_value", "Broker.context", "Broker.rebalance", "RewardSimpleReturn.calculate",
              "RewardPnL.calculate", "RewardLogReturn.calculate", "LogReturn.calculate", "TradingEnv.step", "TradingEnv.reset"]
+SHELL = [c09.insolvency]
 REPLAYERS = [("TradingEnv.step::raises::EndOfEpisodeError::sound", replayers.step_insolvent)]
 LEVEL_TEXT = ("Deductive: net_liquidation_value raises EndOfEpisodeError iff asked to and equity <= 0 (returns the non-positive "
               "value otherwise); Broker.rebalance's insolvent exit is proved to precede every transact and the checkpoint "
               "(positions, track record unchanged); TradingEnv.step is executed symbolically against the callee contracts: it "
               "refuses iff the episode had ended (state unchanged), never clears the done flag, reports done when the decision "
               "arrives at an insolvent account, and EndOfEpisodeError may not escape otherwise - the escape through "
-              "_reward.calculate is the recorded finding D6 (identified by call site; any other escape is reported).")
+              "_reward.calculate is the recorded finding D6 (identified by call site; any other escape is reported). Bounded shell (added): leveraged accounts driven "
+              "insolvent on the real code (crash between bars / inside the latency window with and without recovery / short squeeze) x 3 rewards "
+              "x delays {0,1}: an insolvent decision executes nothing and latches done, later steps are refused, valuation raises iff NLV <= 0.")
 EXPLANATION = LEVEL_TEXT
 EXTRA_ASSUMPTIONS = [
     "TradingEnv.reset is verified to establish the environment invariant that TradingEnv.step assumes at entry and re-establishes at exit, modulo ASSUMED summaries (IState.reset, Transmitter._reset, Transmitter._next, IState.__call__) and TRUSTED small models (sorted() as a permutation ordered by IEvent.__lt__ - itself executed -, Cash() as one fixed cash key with the precondition that the space's base currency is that key, defaultdict(LimitOrderBook) as an empty book table whose rows read NaN : NaN, alive, AbstractContract.verify/Rate.verify, np.inf as an unconstrained constant); the configuration clauses (fees >= 0, contract specs in the property's regime, reward parameters, 0 within the box bounds) are preconditions of reset",
